@@ -92,6 +92,11 @@ CORPUS = [
     # chain of middle latents; duplicate child sets with both name orders; nested child sets
     {"op": "simplify", "d": _d([["PA", "L1"], ["L1", "L2"], ["L2", "X"], ["L2", "Y"], ["L1", "Z"]], ["L1", "L2"])},
     {"op": "simplify", "d": _d([["L2", "X"], ["L2", "Y"], ["L1", "X"], ["L1", "Y"], ["L3", "X"]], ["L1", "L2", "L3"])},
+    # name collisions: a node already called like a generated latent (u_i / v_prime)
+    {"op": "simplify", "d": _d([["PA", "L"], ["L", "C"], ["L_prime", "D"]], ["L"])},
+    {"op": "simplify", "d": _d([["PA", "L"], ["L", "C"], ["L", "D"], ["L_prime", "C"], ["L_prime", "D"], ["L_prime", "E"]], ["L", "L_prime"])},
+    {"op": "roundtrip", "g": {"nodes": ["u_0", "A", "B"], "di": [["u_0", "B"]], "bi": [["A", "B"]]}},
+    {"op": "evans", "g": {"nodes": ["u_0", "A", "B"], "di": [], "bi": [["A", "B"]]}, "extra": []},
     {"op": "from_lv", "d": _d([["L", "X"], ["L", "Y"], ["X", "Y"]], ["L"], nodes=["Z"])},
     {"op": "from_lv", "d": _d([["L", "X"]], ["L"], nodes=["Q1"], untagged=["Q1"])},
     {"op": "design", "d": _d([["L", "X"], ["L", "Y"], ["X", "Y"]], ["L"]), "cause": "X", "effect": "Y"},
@@ -259,6 +264,41 @@ def cases(rng: random.Random, tier: str):
         if len(obs) >= 2:
             c, e = rng.sample(obs, 2)
             out.append({"op": "design", "d": d, "cause": c, "effect": e})
+    for _ in range(60 * k):  # name collisions: nodes already called like the generated latents
+        if rng.random() < 0.5:
+            d = structured_dag(rng) if rng.random() < 0.6 else rand_dag(rng)
+            d.pop("kind", None)
+            pa = {v for _, v in d["edges"]}
+            ch = {u for u, _ in d["edges"]}
+            mids = [l for l in d["latent"] if l in pa and l in ch] or d["latent"] or d["nodes"]
+            l = rng.choice(mids)
+            for depth in range(1, rng.choice([1, 1, 2]) + 1):
+                new = l + SUF * depth
+                if new in d["nodes"]:
+                    continue
+                d["nodes"].append(new)
+                if rng.random() < 0.4:
+                    d["latent"] = d["latent"] + [new]
+                for t in rng.sample(d["nodes"][:-1], min(len(d["nodes"]) - 1, rng.randint(0, 2))):
+                    if t != l and O.is_acyclic(d["nodes"], [tuple(e) for e in d["edges"]] + [(new, t)]):
+                        d["edges"].append([new, t])
+            out.append({"op": "simplify", "d": d})
+        else:
+            g = rand_admg(rng, nmax=6)
+            m = len(g["bi"])
+            for j in rng.sample(range(m + 1), min(m + 1, rng.randint(1, 2))):
+                new = f"u_{j}"
+                g["nodes"].append(new)
+                others = [v for v in G.all_nodes(g) if v != new]
+                if others and rng.random() < 0.5:
+                    g["di"].append([new, rng.choice(others)])
+                if others and rng.random() < 0.5:
+                    g["bi"].append([new, rng.choice(others)])
+            if rng.random() < 0.5:
+                out.append({"op": "roundtrip", "g": g})
+            else:
+                nodes = G.all_nodes(g)
+                out.append({"op": "evans", "g": g, "extra": [v for v in nodes if rng.random() < 0.3]})
     for c in out:
         c.setdefault("sub", rng.randrange(1 << 30))
     return out
@@ -283,17 +323,18 @@ def _case_names(case):
 def table(case):
     """sorted universe of names (Python string order == Variable order); index = the model's Nat"""
     names, m = _case_names(case)
-    uni = set(names) | {f"u_{i}" for i in range(m)}
+    uni = set(names) | {f"u_{i}" for i in range(m + len(names) + 1)}
+    depth = 2 + sum(1 for n in names if n.endswith(SUF))
     for n in list(uni):
-        uni.add(n + SUF)
-        uni.add(n + SUF + SUF)
+        for k in range(1, depth + 1):
+            uni.add(n + SUF * k)
     uni = sorted(uni)
     rank = {n: i for i, n in enumerate(uni)}
     return uni, rank
 
 
 def collides(case):
-    """the naming functions of the code would hit an existing node: outside the model's precondition"""
+    """the default names of the code (u_i, v_prime) would hit an existing node (F13/F14 witnesses); tag only"""
     names, m = _case_names(case)
     if any(f"u_{i}" in names for i in range(m)):
         return True
@@ -608,19 +649,19 @@ def _enc_lv(d, rank):
 
 def request(case):
     op = case["op"]
-    if op == "design" or collides(case):
+    if op == "design":
         return None
     uni, rank = table(case)
     primes = [[rank[n], rank[n + SUF]] for n in uni if n + SUF in rank]
     if op == "roundtrip":
-        fresh = [rank[f"u_{i}"] for i in range(len(case["g"]["bi"]))]
+        fresh = [rank[f"u_{i}"] for i in range(len(case["g"]["bi"]) + len(G.all_nodes(case["g"])) + 1)]
         return C.enc(["latent", "roundtrip", _enc_graph(case["g"], rank), fresh])
     if op == "simplify":
         return C.enc(["latent", "simplify", _enc_lv(case["d"], rank), primes])
     if op == "from_lv":
         return C.enc(["latent", "from_lv", _enc_lv(case["d"], rank)])
     if op == "evans":
-        fresh = [rank[f"u_{i}"] for i in range(len(case["g"]["bi"]))]
+        fresh = [rank[f"u_{i}"] for i in range(len(case["g"]["bi"]) + len(G.all_nodes(case["g"])) + 1)]
         return C.enc(["latent", "evans", _enc_graph(case["g"], rank), [rank[x] for x in case.get("extra", [])], fresh, primes])
     return None
 
